@@ -185,10 +185,14 @@ def eqhash(ctx, rule: str, cls_qual: str, identity_attrs: List[str], excluded: L
     short = cls_qual.split(".")[-1]
     ctx.look(2)
     used_eq = set()
-    for n in ast.walk(eq.node):
-        if isinstance(n, ast.If) and norm(n.test) == f"isinstance(other, {short})":
-            for r in [x for x in ast.walk(n) if isinstance(x, ast.Return)]:
-                used_eq |= {a.attr for a in ast.walk(r) if isinstance(a, ast.Attribute) and dotted(a.value) in ("self", "other")}
+    other = param_names(eq.node)[1]
+    try:
+        same = sym.eval_under(sym.outcomes(eq.node), {f"isinstance({other}, {short})": True}, kinds=("return",))
+    except sym.Unmodelled as e:
+        raise AnalysisError(f"{rule}: {cls_qual}.__eq__ cannot be summarised: {e}")
+    for _k, v, _e in same:
+        if v is not None:
+            used_eq |= {a.attr for a in ast.walk(v) if isinstance(a, ast.Attribute) and dotted(a.value) in ("self", other)}
     ctx.check(used_eq == set(identity_attrs), rule, f"{short}.__eq__ compares exactly {sorted(identity_attrs)}", eq.where,
               ctx.construct(eq, text="eq attrs"), f"same-type equality reads {sorted(used_eq)}")
     hashed = {a.attr for a in ast.walk(hs.node) if isinstance(a, ast.Attribute) and dotted(a.value) == "self"}
@@ -206,7 +210,15 @@ def r4(ctx):
     eqhash(ctx, "C03.R4", "formulaic.materializers.types.scoped_factor.ScopedFactor", ["factor", "reduced"])
     C, eq, hs = eqhash(ctx, "C03.R4", "formulaic.materializers.types.scoped_term.ScopedTerm", ["factors"], excluded=["scale"])
     # order-insensitive on both sides with the same normalisation
-    r = [x for x in ast.walk(eq.node) if isinstance(x, ast.Return) and isinstance(x.value, ast.Compare)]
+    try:
+        _same = sym.eval_under(sym.outcomes(eq.node), {"isinstance(other, ScopedTerm)": True}, kinds=("return",))
+    except sym.Unmodelled:
+        _same = []
+
+    class _R:  # the same-type comparison, whichever way the branch is written
+        def __init__(self, v):
+            self.value = v
+    r = [_R(v) for _k, v, _e in _same if isinstance(v, ast.Compare)]
     ok = bool(r) and norm(r[0].value) in ("sorted(self.factors) == sorted(other.factors)", "set(self.factors) == set(other.factors)",
                                            "frozenset(self.factors) == frozenset(other.factors)")
     hr = returns_of(hs.node)
